@@ -312,8 +312,9 @@ class Emit(Rule):
             args = []
             for o in ops:
                 if o.startswith('"'):
-                    if kind is None and re.search(r'[A-Za-z]', o):
-                        kind = re.sub(r'\W+', '_', o.strip('"').replace('\\n', '')).strip('_')
+                    bare = re.sub(r'\\.', ' ', o.strip('"'))
+                    if kind is None and re.search(r'[A-Za-z]', bare):
+                        kind = re.sub(r'\W+', '_', bare).strip('_')
                     continue
                 for orx, fmt in self.table:
                     mm = re.fullmatch(orx, o, re.S)
@@ -418,6 +419,41 @@ def in_spans(pos, spans):
     return any(a <= pos < b for a, b in spans)
 
 
+class Bound(Rule):
+    """R9: name[e1][e2].. -> name[vx_idx(e1, d1)][vx_idx(e2, d2)]..  (skips contract clauses)"""
+
+    def __init__(self, name_re, dims, min=0):
+        self.name_re, self.dims, self.min = name_re, dims, min
+        self.name = 'R9:bound(%s)' % name_re
+
+    def apply(self, text, log):
+        n, pos = 0, 0
+        rx = re.compile(r'(?<![\w>])(' + self.name_re + r')\s*\[')
+        while True:
+            m = rx.search(text, pos)
+            if not m:
+                break
+            if in_spans(m.start(), contract_spans(text)):
+                pos = m.end(); continue
+            out = m.group(1)
+            p0 = m.end() - 1
+            k = 0
+            while k < len(self.dims) and p0 < len(text) and text[p0] == '[':
+                cl = match_close(text, p0, '[', ']')
+                out += '[vx_idx(%s, %s)]' % (text[p0 + 1:cl], self.dims[k])
+                p0 = cl + 1
+                k += 1
+            if k != len(self.dims):
+                raise ExtractionBreak('R9: %s subscripted %d times, declared with %d dimensions' % (m.group(1), k, len(self.dims)))
+            text = text[:m.start()] + out + text[p0:]
+            pos = m.start() + len(m.group(1)) + 1      # continue inside the first subscript (nested arrays)
+            n += 1
+        log.add(self.name, n)
+        if n < self.min:
+            raise ExtractionBreak('rule %s fired %d times' % (self.name, n))
+        return text
+
+
 GENERIC = [
     S(r'\bconstexpr\s+', '', min=0, name='R1:constexpr'),
     S(r'\[\[maybe_unused\]\]\s*', '', min=0, name='R1:maybe_unused'),
@@ -466,9 +502,35 @@ def weave_loops(body, loops, fname):
     return body, len(hs)
 
 
+def loop_body_span(body, ordinal):
+    """(open, close) brace positions of the body of loop #ordinal (body must be braced)"""
+    hs = loop_headers(body)
+    if ordinal >= len(hs):
+        raise ExtractionBreak('loop %d not found' % ordinal)
+    j = hs[ordinal]
+    while True:
+        m2 = re.match(r'\s*__CPROVER_(loop_invariant|decreases|assigns)\s*', body[j:])
+        if not m2:
+            break
+        j = match_close(body, j + m2.end(), '(', ')') + 1
+    while body[j].isspace():
+        j += 1
+    if body[j] != '{':
+        raise ExtractionBreak('loop %d body is not a braced block' % ordinal)
+    return j, match_close(body, j)
+
+
 def weave_points(body, points, fname):
     """points: list of dict(at=regex, code=str, where='before'|'after'|'before-stmt'|'after-stmt', min=1, max=None)"""
     for p in points:
+        if p.get('where') == 'fn-end':
+            body = wrap_returns(body, p['code'])
+            continue
+        if p.get('where') in ('loop-begin', 'loop-end'):
+            a, b = loop_body_span(body, p['loop'])
+            pos = a + 1 if p['where'] == 'loop-begin' else b
+            body = body[:pos] + ' ' + p['code'] + ' ' + body[pos:]
+            continue
         ms = list(re.finditer(p['at'], body))
         mn, mx = p.get('min', 1), p.get('max')
         if len(ms) < mn or (mx is not None and len(ms) > mx):
